@@ -711,6 +711,21 @@ fn gen_actor_watcher(w: &mut CaseWriter, rt: &tokio::runtime::Runtime, thorough:
                 ops.extend((0..8).rev().map(AOp::Get));
                 ops.push(AOp::Watch(lay.clone()));
                 ops.extend([4, 5, 7, 6].map(AOp::Get));
+                // a member is re-labelled: same id, same address, another data centre (a node is listed
+                // under a default data centre until its own label has been gossiped)
+                if lay.len() >= 2 {
+                    let mut relabelled = lay.clone();
+                    let (from, to) = if relabelled[0].0 == *d { (1, 0) } else { (0, 1) };
+                    if let Some(x) = relabelled[from].1.iter().copied().find(|x| *x != *a) {
+                        relabelled[from].1.retain(|y| *y != x);
+                        relabelled[to].1.push(x);
+                        // the watcher lists the members of a data centre in node-id order
+                        relabelled[to].1.sort_by_key(|y| *y as u8);
+                        relabelled.retain(|(_, ns)| !ns.is_empty());
+                        ops.push(AOp::Watch(relabelled));
+                        ops.extend([5, 7, 4, 6].map(AOp::Get));
+                    }
+                }
                 // a member comes back under another address with the same node id (ids are the low
                 // byte of the address): the selector must hand out the new address only
                 let mut moved = lay.clone();
